@@ -1115,3 +1115,49 @@ func c17r6(rc *core.RC) {
 	}
 }
 
+// ---------- C17.R7: the decoder's simple escapes have their RFC 8259 values ----------
+
+// C04.R1 compares the decoder with what the encoder emits, which leaves letters the encoder never
+// uses (\f and \b are written as \u escapes by some appenders, \/ by none) unchecked. This rule
+// compares every escape-letter dispatch of the decoder, and unescapeMap, with the table of RFC 8259
+// section 7 itself.
+func c17r7(rc *core.RC) {
+	p := rc.P
+	rfc := map[byte]int{'"': '"', '\\': '\\', '/': '/', 'b': 8, 'f': 12, 'n': 10, 'r': 13, 't': 9}
+	letters := []byte{'"', '\\', '/', 'b', 'f', 'n', 'r', 't'}
+	for _, d := range escapeDispatches(rc) {
+		rc.Touch(d.name)
+		info := p.Info(d.fd)
+		for _, l := range letters {
+			key := fmt.Sprintf("%s/rfc-escape/letter %q", d.name, rune(l))
+			cc := d.bs.ClauseOf(l)
+			if cc == nil || !d.bs.HasLabel(l) || clauseIsError(info, cc) {
+				rc.Bad(key, d.bs.Stmt.Pos(), "RFC 8259 escape \\%c has no accepting clause in this reader", rune(l))
+				continue
+			}
+			c, ok := clauseConstByte(info, cc)
+			if !ok {
+				// a clause shared by several letters that stores the letter itself is right only for the
+				// three self-escapes
+				if l == '"' || l == '\\' || l == '/' {
+					rc.OK(key, cc.Pos(), "accepted; the clause stores no constant (self-escape)")
+				} else if len(cc.List) > 1 && !core.ContainsAssign(cc) {
+					rc.OK(key, cc.Pos(), "accepted by a clause shared with other letters that stores nothing: a validating scan, the value comes from unescapeMap")
+				} else {
+					rc.Unknown(key, cc.Pos(), "the byte this clause decodes \\%c to could not be determined", rune(l))
+				}
+				continue
+			}
+			rc.Check(c == rfc[l], key, cc.Pos(), "reader decodes \\%c to 0x%02x; RFC 8259 says 0x%02x", rune(l), c, rfc[l])
+		}
+	}
+	um := core.EvalTable(p.Pkg("decoder"), "unescapeMap")
+	if um == nil || um.Opaque {
+		rc.Unknown("decoder.unescapeMap", token.NoPos, "table not found or not constant")
+		return
+	}
+	for _, l := range letters {
+		got, _ := um.Int(int(l))
+		rc.Check(int(got) == rfc[l], fmt.Sprintf("decoder.unescapeMap[%q]/rfc", rune(l)), um.Pos, "unescapeMap maps \\%c to 0x%02x; RFC 8259 says 0x%02x", rune(l), got, rfc[l])
+	}
+}
